@@ -1,11 +1,525 @@
-// Package c05: correspondence ops for C05 (stub, not yet built).
+// Package c05: disruption budgets — real code vs Lean model, and the independent Lean spec on what the real code did.
 package c05
 
 import (
+	"encoding/json"
+	"fmt"
+	"math/rand/v2"
+	"sort"
+	"strings"
+	"time"
+
+	"github.com/robfig/cron/v3"
+	"github.com/samber/lo"
+	clocktesting "k8s.io/utils/clock/testing"
+
+	v1 "sigs.k8s.io/karpenter/pkg/apis/v1"
+
 	"verifharness/internal/core"
 	"verifharness/internal/registry"
 )
 
 func init() { registry.Register("C05", Ops) }
 
-func Ops() []*core.Op { return nil }
+// CronEntry records what the real robfig/cron answers for the (schedule, checkpoint) pair the code asks.
+type CronEntry struct {
+	S    string `json:"s"`
+	T    int64  `json:"t"`
+	OK   bool   `json:"ok"`
+	Next *int64 `json:"next"`
+}
+
+// cronTable asks the real cron library the same questions Budget.IsActive asks, for every budget at `now`
+// (and optionally at further instants).
+func cronTable(bs []BudgetIn, nows ...time.Time) []CronEntry {
+	out := []CronEntry{}
+	seen := map[string]bool{}
+	for _, now := range nows {
+		for _, b := range bs {
+			if b.Schedule == nil && b.DurationMin == nil {
+				continue
+			}
+			s := lo.FromPtr(b.Schedule)
+			d := time.Duration(lo.FromPtr(b.DurationMin)) * time.Minute
+			t := now.UTC().Add(-d)
+			key := fmt.Sprintf("%s|%d", s, t.UnixNano())
+			if seen[key] {
+				continue
+			}
+			seen[key] = true
+			e := CronEntry{S: s, T: t.UnixNano()}
+			sch, err := cron.ParseStandard(fmt.Sprintf("TZ=UTC %s", s))
+			if err == nil {
+				e.OK = true
+				if h := sch.Next(t); !h.IsZero() {
+					e.Next = lo.ToPtr(h.UnixNano())
+				}
+			}
+			out = append(out, e)
+		}
+	}
+	return out
+}
+
+func unixNs(ns int64) time.Time { return time.Unix(0, ns).UTC() }
+
+// ---------------------------------------------------------------------------------------------------------------
+// c05.active
+
+type ActiveIn struct {
+	Budget   BudgetIn `json:"budget"`
+	NowNs    int64    `json:"nowNs"`
+	NumNodes int      `json:"numNodes"`
+}
+
+type ActiveOut struct {
+	Active     bool        `json:"active"`
+	Err        bool        `json:"err"`
+	Allowed    int         `json:"allowed"`
+	AllowedErr bool        `json:"allowedErr"`
+	Cron       []CronEntry `json:"cron"`
+}
+
+func genActive(r *rand.Rand, t core.Tier) any {
+	b := genBudget(r, false, true)
+	// this op is about the window: make sure most budgets are scheduled
+	if b.Schedule == nil && r.Float64() < 0.7 {
+		s := genSchedule(r)
+		d := genDuration(r)
+		b.Schedule, b.DurationMin = &s, &d
+	}
+	now := genInstant(r, []BudgetIn{b})
+	return ActiveIn{Budget: b, NowNs: now.UnixNano(), NumNodes: genTotal(r)}
+}
+
+func implActive(raw json.RawMessage) (any, error) {
+	var in ActiveIn
+	if err := json.Unmarshal(raw, &in); err != nil {
+		return nil, err
+	}
+	now := unixNs(in.NowNs)
+	clk := clocktesting.NewFakeClock(now)
+	b := in.Budget.toV1()
+	active, err := b.IsActive(clk)
+	allowed, err2 := b.GetAllowedDisruptions(clk, in.NumNodes)
+	return ActiveOut{Active: active, Err: err != nil, Allowed: allowed, AllowedErr: err2 != nil, Cron: cronTable([]BudgetIn{in.Budget}, now)}, nil
+}
+
+// ---------------------------------------------------------------------------------------------------------------
+// c05.allowed
+
+type AllowedIn struct {
+	Budgets  []BudgetIn `json:"budgets"`
+	NowNs    int64      `json:"nowNs"`
+	NumNodes int        `json:"numNodes"`
+	Reason   string     `json:"reason"`
+}
+
+type PerBudget struct {
+	Val int  `json:"val"`
+	Err bool `json:"err"`
+}
+
+type AllowedOut struct {
+	ByReason int         `json:"byReason"`
+	Err      bool        `json:"err"`
+	Must     int         `json:"must"`
+	Per      []PerBudget `json:"per"`
+	Cron     []CronEntry `json:"cron"`
+}
+
+func genBudgetList(r *rand.Rand, max int, wellFormed, allowEmptyNonNil bool) []BudgetIn {
+	n := 1 + r.IntN(max)
+	if r.Float64() < 0.04 {
+		n = 0
+	}
+	bs := make([]BudgetIn, 0, n)
+	for i := 0; i < n; i++ {
+		bs = append(bs, genBudget(r, wellFormed, allowEmptyNonNil))
+	}
+	if n > 1 && r.Float64() < 0.08 {
+		bs[1] = bs[0] // duplicates
+	}
+	return bs
+}
+
+func genAllowed(r *rand.Rand, t core.Tier) any {
+	bs := genBudgetList(r, 4, r.Float64() < 0.6, false)
+	now := genInstant(r, bs)
+	reason := pick(r, allReasons)
+	if r.Float64() < 0.03 {
+		reason = "Other"
+	}
+	return AllowedIn{Budgets: bs, NowNs: now.UnixNano(), NumNodes: genTotal(r), Reason: reason}
+}
+
+// genReasonsCase: budget lists in which at least one budget has a non-nil EMPTY reasons list.
+func genReasonsCase(r *rand.Rand, t core.Tier) any {
+	in := genAllowed(r, t).(AllowedIn)
+	if len(in.Budgets) == 0 {
+		in.Budgets = []BudgetIn{genBudget(r, true, false)}
+	}
+	i := r.IntN(len(in.Budgets))
+	in.Budgets[i].Reasons = &[]string{}
+	if r.Float64() < 0.3 {
+		in.Budgets = append(in.Budgets, BudgetIn{Reasons: &[]string{}, Nodes: pick(r, []string{"0", "1", "10%"})})
+	}
+	return in
+}
+
+// enumAllowed: a small exhaustive core — every nodes value × reasons shape × queried reason × pool size at a fixed
+// instant, for an always-active budget and for one inside / outside its window.
+func enumAllowed(t core.Tier) []any {
+	return enumAllowedWith([]*[]string{nil, {"Empty"}, {"Drifted", "Underutilized"}})
+}
+
+// enumReasons: the same core for the non-nil empty reasons list (known finding C05-empty-reasons lives here).
+func enumReasons(t core.Tier) []any { return enumAllowedWith([]*[]string{{}}) }
+
+func enumAllowedWith(reasons []*[]string) []any {
+	var out []any
+	nodes := []string{"0", "1", "3", "10%", "50%", "100%", "abc", "2147483648"}
+	sizes := []int{0, 1, 9, 10, 11}
+	hourly := "0 * * * *"
+	bad := "61 * * * *"
+	d20 := int64(20)
+	at := time.Date(2026, 3, 4, 12, 10, 0, 0, time.UTC)
+	for _, n := range nodes {
+		for _, rs := range reasons {
+			for _, q := range allReasons {
+				for _, sz := range sizes {
+					for w := 0; w < 4; w++ {
+						b := BudgetIn{Reasons: rs, Nodes: n}
+						now := at
+						if w > 0 {
+							b.Schedule, b.DurationMin = &hourly, &d20
+						}
+						if w == 2 {
+							now = at.Add(15 * time.Minute)
+						}
+						if w == 3 {
+							b.Schedule = &bad
+						}
+						out = append(out, AllowedIn{Budgets: []BudgetIn{b, {Nodes: "7"}}, NowNs: now.UnixNano(), NumNodes: sz, Reason: q})
+					}
+				}
+			}
+		}
+	}
+	return out
+}
+
+func implAllowed(raw json.RawMessage) (any, error) {
+	var in AllowedIn
+	if err := json.Unmarshal(raw, &in); err != nil {
+		return nil, err
+	}
+	return runAllowed(in), nil
+}
+
+func runAllowed(in AllowedIn) AllowedOut {
+	now := unixNs(in.NowNs)
+	clk := clocktesting.NewFakeClock(now)
+	np := &v1.NodePool{}
+	np.Spec.Disruption.Budgets = budgetsToV1(in.Budgets)
+	val, err := np.GetAllowedDisruptionsByReason(clk, in.NumNodes, v1.DisruptionReason(in.Reason))
+	must := np.MustGetAllowedDisruptions(clk, in.NumNodes, v1.DisruptionReason(in.Reason))
+	out := AllowedOut{ByReason: val, Err: err != nil, Must: must, Per: []PerBudget{}, Cron: cronTable(in.Budgets, now)}
+	for i := range np.Spec.Disruption.Budgets {
+		v, e := np.Spec.Disruption.Budgets[i].GetAllowedDisruptions(clk, in.NumNodes)
+		out.Per = append(out.Per, PerBudget{Val: v, Err: e != nil})
+	}
+	return out
+}
+
+// hasEmptyNonNil tells whether some budget has a non-nil empty reasons list.
+func hasEmptyNonNil(bs []BudgetIn) bool {
+	for _, b := range bs {
+		if b.Reasons != nil && len(*b.Reasons) == 0 {
+			return true
+		}
+	}
+	return false
+}
+
+// nilEmptyReasons returns the budgets with every non-nil empty reasons list replaced by nil (the repaired reading).
+func nilEmptyReasons(bs []BudgetIn) []BudgetIn {
+	out := make([]BudgetIn, len(bs))
+	copy(out, bs)
+	for i := range out {
+		if out[i].Reasons != nil && len(*out[i].Reasons) == 0 {
+			out[i].Reasons = nil
+		}
+	}
+	return out
+}
+
+// sigAllowed: "empty-reasons-ignored" iff the input has a budget with a non-nil empty reasons list AND reading that
+// list as "no reasons listed" (nil) changes what the real code returns — i.e. the failure is caused by that budget
+// being skipped. Any other failing input is "other".
+func sigAllowed(raw json.RawMessage, _ any) string {
+	var in AllowedIn
+	if json.Unmarshal(raw, &in) != nil {
+		return "other"
+	}
+	if !hasEmptyNonNil(in.Budgets) {
+		return "other"
+	}
+	a := runAllowed(in)
+	in2 := in
+	in2.Budgets = nilEmptyReasons(in.Budgets)
+	b := runAllowed(in2)
+	if a.Must != b.Must {
+		return "empty-reasons-ignored"
+	}
+	return "other"
+}
+
+func budgetLabels(bs []BudgetIn) []string {
+	var l []string
+	for _, b := range bs {
+		switch {
+		case b.Schedule == nil && b.DurationMin == nil:
+			l = append(l, "budget:always")
+		case b.Schedule != nil && b.DurationMin == nil:
+			l = append(l, "budget:schedule-without-duration")
+		case b.Schedule == nil:
+			l = append(l, "budget:duration-without-schedule")
+		default:
+			if _, err := cron.ParseStandard("TZ=UTC " + *b.Schedule); err != nil {
+				l = append(l, "budget:malformed-schedule")
+			} else if strings.HasPrefix(*b.Schedule, "@") {
+				l = append(l, "budget:descriptor")
+			} else {
+				l = append(l, "budget:cron")
+			}
+		}
+		switch {
+		case b.Reasons == nil:
+			l = append(l, "reasons:nil")
+		case len(*b.Reasons) == 0:
+			l = append(l, "reasons:empty-nonnil")
+		default:
+			l = append(l, fmt.Sprintf("reasons:%d", len(*b.Reasons)))
+		}
+		switch {
+		case strings.HasSuffix(b.Nodes, "%") && isDigits(strings.TrimSuffix(b.Nodes, "%")):
+			l = append(l, "nodes:percent")
+		case isDigits(b.Nodes):
+			if len(b.Nodes) >= 10 {
+				l = append(l, "nodes:count-huge")
+			} else {
+				l = append(l, "nodes:count")
+			}
+		case strings.HasPrefix(b.Nodes, "+") || strings.HasPrefix(b.Nodes, "-"):
+			l = append(l, "nodes:signed(outside-admission)")
+		default:
+			l = append(l, "nodes:malformed")
+		}
+	}
+	return l
+}
+
+func isDigits(s string) bool {
+	if s == "" {
+		return false
+	}
+	for _, c := range s {
+		if c < '0' || c > '9' {
+			return false
+		}
+	}
+	return true
+}
+
+func shrinkBudgets(bs []BudgetIn) [][]BudgetIn {
+	var out [][]BudgetIn
+	out = append(out, core.ShrinkList(bs)...)
+	for i, b := range bs {
+		if b.Schedule != nil || b.DurationMin != nil {
+			c := append([]BudgetIn{}, bs...)
+			c[i].Schedule, c[i].DurationMin = nil, nil
+			out = append(out, c)
+		}
+		if b.Reasons != nil && len(*b.Reasons) > 1 {
+			c := append([]BudgetIn{}, bs...)
+			rs := (*b.Reasons)[:1]
+			c[i].Reasons = &rs
+			out = append(out, c)
+		}
+	}
+	return out
+}
+
+// ---------------------------------------------------------------------------------------------------------------
+
+func Ops() []*core.Op {
+	return []*core.Op{
+		{
+			Name: "c05.active",
+			Doc:  "v1.Budget.IsActive / GetAllowedDisruptions on one budget at one instant, against the window spec [hit, hit+d) with the real robfig/cron sampled against the Lean cron spec",
+			N: func(t core.Tier) int {
+				if t == core.Thorough {
+					return 60000
+				}
+				return 3000
+			},
+			Gen:  genActive,
+			Impl: implActive,
+			Rule: "budgets from the cron grammar (+descriptors, malformed stream), instants at/±1ns/±1s around window edges; non-trivial = scheduled, parsable budget with the instant within one minute of a window edge",
+			Nontrivial: func(raw json.RawMessage, _ any) bool {
+				var in ActiveIn
+				json.Unmarshal(raw, &in)
+				return nearEdge([]BudgetIn{in.Budget}, unixNs(in.NowNs))
+			},
+			Labels: func(raw json.RawMessage, impl any) []string {
+				var in ActiveIn
+				json.Unmarshal(raw, &in)
+				l := budgetLabels([]BudgetIn{in.Budget})
+				if m, ok := impl.(map[string]any); ok {
+					l = append(l, fmt.Sprintf("active=%v", m["active"]), fmt.Sprintf("err=%v", m["err"]))
+				}
+				if nearEdge([]BudgetIn{in.Budget}, unixNs(in.NowNs)) {
+					l = append(l, "near-edge")
+				}
+				if m, ok := impl.(map[string]any); ok {
+					if cs, ok := m["cron"].([]any); ok {
+						for _, c := range cs {
+							if cm, ok := c.(map[string]any); ok && cm["ok"] == true && cm["next"] == nil {
+								l = append(l, "cron:no-activation-within-5y")
+							}
+						}
+					}
+				}
+				return l
+			},
+			Signature: func(raw json.RawMessage, _ any) string { return "active" },
+			Shrink: func(raw json.RawMessage) []any {
+				var in ActiveIn
+				json.Unmarshal(raw, &in)
+				var out []any
+				if in.Budget.Reasons != nil {
+					c := in
+					c.Budget.Reasons = nil
+					out = append(out, c)
+				}
+				if in.NumNodes > 10 {
+					c := in
+					c.NumNodes = 10
+					out = append(out, c)
+				}
+				return out
+			},
+		},
+		{
+			Name: "c05.allowed",
+			Doc:  "NodePool.GetAllowedDisruptionsByReason / MustGetAllowedDisruptions / per-budget GetAllowedDisruptions on a budget list × instant × pool size × reason",
+			N: func(t core.Tier) int {
+				if t == core.Thorough {
+					return 120000
+				}
+				return 4000
+			},
+			Gen:            genAllowed,
+			Enum:           enumAllowed,
+			ExhaustiveNote: "8 nodes values × 3 reasons shapes (nil, one, two) × 3 queried reasons × 5 pool sizes × {always, inside window, outside window, unparsable schedule}",
+			Impl:           implAllowed,
+			Rule:           "1–4 budgets (counts, percents, huge/malformed values, reasons nil/empty/listed, cron windows); non-trivial = at least one scheduled parsable budget with the instant within one minute of a window edge, or a percentage budget",
+			Nontrivial: func(raw json.RawMessage, _ any) bool {
+				var in AllowedIn
+				json.Unmarshal(raw, &in)
+				if nearEdge(in.Budgets, unixNs(in.NowNs)) {
+					return true
+				}
+				for _, b := range in.Budgets {
+					if strings.HasSuffix(b.Nodes, "%") {
+						return true
+					}
+				}
+				return false
+			},
+			Labels: func(raw json.RawMessage, impl any) []string {
+				var in AllowedIn
+				json.Unmarshal(raw, &in)
+				l := budgetLabels(in.Budgets)
+				l = append(l, fmt.Sprintf("budgets=%d", len(in.Budgets)), "reason:"+in.Reason)
+				if m, ok := impl.(map[string]any); ok {
+					l = append(l, fmt.Sprintf("err=%v", m["err"]))
+					if fmt.Sprint(m["must"]) == "2147483647" {
+						l = append(l, "must=unbounded")
+					} else if fmt.Sprint(m["must"]) == "0" {
+						l = append(l, "must=0")
+					} else {
+						l = append(l, "must=bounded")
+					}
+				}
+				return l
+			},
+			Signature: sigAllowed,
+			Shrink: func(raw json.RawMessage) []any {
+				var in AllowedIn
+				json.Unmarshal(raw, &in)
+				var out []any
+				for _, c := range shrinkBudgets(in.Budgets) {
+					x := in
+					x.Budgets = c
+					out = append(out, x)
+				}
+				if in.NumNodes > 10 {
+					x := in
+					x.NumNodes = 10
+					out = append(out, x)
+				}
+				return out
+			},
+		},
+		{
+			Name: "c05.reasons",
+			Doc:  "the same real functions as c05.allowed, on budget lists that contain a budget with a non-nil EMPTY `reasons` list (what decoding `reasons: []` yields); home of known finding C05-empty-reasons",
+			N: func(t core.Tier) int {
+				if t == core.Thorough {
+					return 4000
+				}
+				return 400
+			},
+			Gen:            genReasonsCase,
+			Enum:           enumReasons,
+			ExhaustiveNote: "8 nodes values × reasons = [] × 3 queried reasons × 5 pool sizes × {always, inside window, outside window, unparsable schedule}",
+			Impl:           implAllowed,
+			Rule:           "budget lists with at least one `reasons: []` budget; non-trivial = that budget is the most restrictive active one for the queried reason (reading [] as nil changes the result)",
+			Nontrivial: func(raw json.RawMessage, _ any) bool {
+				return sigAllowed(raw, nil) == "empty-reasons-ignored"
+			},
+			Labels: func(raw json.RawMessage, impl any) []string {
+				var in AllowedIn
+				json.Unmarshal(raw, &in)
+				return []string{fmt.Sprintf("budgets=%d", len(in.Budgets)), "reason:" + in.Reason, "class:" + sigAllowed(raw, nil)}
+			},
+			Signature: sigAllowed,
+			Shrink: func(raw json.RawMessage) []any {
+				var in AllowedIn
+				json.Unmarshal(raw, &in)
+				var out []any
+				for _, c := range shrinkBudgets(in.Budgets) {
+					x := in
+					x.Budgets = c
+					out = append(out, x)
+				}
+				return out
+			},
+		},
+		opMapping(),
+		opSelect(),
+		opRounds(),
+	}
+}
+
+func sortedPairs(m map[string]int) [][]any {
+	keys := lo.Keys(m)
+	sort.Strings(keys)
+	out := [][]any{}
+	for _, k := range keys {
+		out = append(out, []any{k, m[k]})
+	}
+	return out
+}
